@@ -350,6 +350,22 @@ MacroBodiesOK(prog, ovr) ==
   LET env == Env(prog, ovr)
       tab == RegTab(prog, env)
   IN \A j \in DOMAIN prog.macros : ~HasBadStrict(M(prog.macros[j].body, prog, env, tab, EmptyFn, FALSE, 0))
+\* typing AFTER macro expansion: an untyped macro parameter fits every position syntactically (ArgFits), but what a
+\* call actually passes must fit the signature of the native gate it ends up in (C14: "a call with the wrong ... kind
+\* of arguments", known at macro expansion)
+MArgFits(kind, a) ==
+  CASE a.k = "q" -> kind \in {"qubit", "none"}
+    [] a.k = "regv" -> kind \in {"register", "none"}
+    [] a.k = "num" -> NumFits(kind, a)
+    [] OTHER -> FALSE
+RECURSIVE MeaningTypedNode(_, _)
+MeaningTypedNode(prog, m) ==
+  CASE m.k = "G" -> m.v \notin NativeNames(prog) \/
+                    LET g == NativeOf(prog, m.v) IN
+                    Len(g.kinds) = Len(m.args) /\ \A j \in DOMAIN m.args : MArgFits(g.kinds[j], m.args[j])
+    [] m.k \in {"S", "P", "L", "U"} -> \A j \in DOMAIN m.c : MeaningTypedNode(prog, m.c[j])
+    [] OTHER -> TRUE
+MeaningTyped(prog, ovr) == prog.natives = <<>> \/ MeaningTypedNode(prog, Meaning(prog, ovr))
 \* full static validity of a (program, override) pair
 ValidAll(prog, ovr) ==
   /\ NoDupNames(prog)
@@ -358,6 +374,7 @@ ValidAll(prog, ovr) ==
   /\ ~HasBad(Meaning(prog, ovr))
   /\ ~SubNestBad(Meaning(prog, ovr), FALSE)
   /\ TypeOK(prog, ovr)
+  /\ MeaningTyped(prog, ovr)
 
 \* ---------------------------------------------------------------- declarations (order-insensitive)
 SeqToSet(s) == { s[j] : j \in DOMAIN s }
